@@ -81,6 +81,9 @@ pub fn open_position(
         Ok(positions)
     })?;
 
+    let snapshot_epoch = helpers::get_current_epoch(deps.as_ref())?;
+    helpers::snapshot_global_weight_if_missing(deps.storage, snapshot_epoch)?;
+
     // add the weight to the global weight and the user's weight
     let weight = calculate_weight(unbonding_duration, amount)?;
     GLOBAL_WEIGHT.update::<_, StdError>(deps.storage, |global_weight| {
